@@ -1,7 +1,7 @@
 #!/bin/bash
 # usage: tools/confirm_seed.sh <ID> [extra cc flags]  — confirm a seeded change in its scratch worktree /tmp/seed/<ID>:
 # with the patch: builds, baseline suite passes, demo fails; without: demo passes.  Leaves the worktree clean.
-ID=$1; shift; W=/tmp/seed/$ID; D=/tmp/seed/$ID-work
+ID=$1; shift; W=/tmp/seed/$ID; D=/tmp/seed/$ID-${SEEDWORK:-work}
 cd $W || exit 2
 git checkout -q -- . ; git apply $D/patch.diff || { echo "APPLY-FAILED"; exit 2; }
 timeout 1500 cmake --build _build -j8 2>&1 | tail -1
